@@ -25,6 +25,10 @@ def line_jobs(d, tier, cfgs=(("ndebug", ["NDEBUG"]),)):
                       enforce=["decode_big_endian_program" if be else "decode_little_endian_program"],
                       replace=["decode_line"], loops=True, defines=defs + ["VERIF_NO_LINE_LEVEL"], includes=INC, tier=tier, cover=True,
                       local_frame_ok=[("decode_little_endian_program", "ch")]))
+        js.append(Job("L1_table" + sfx, "harness/basic_tokens.c", "h_build_mapping",
+                      enforce=["build_mapping"], defines=defs, includes=INC, tier=tier, cover=True,
+                      cbmc=["--unwindset", "build_mapping.0:130,build_mapping.1:130,build_mapping.2:258,build_invalid_map.0:258,spec_streq.0:17",
+                            "--unwinding-assertions"], timeout=1500))
     return js
 
 def jobs(tier):
